@@ -7,9 +7,7 @@ import (
 	schema "github.com/jsightapi/jsight-schema-core"
 	"github.com/jsightapi/jsight-schema-core/errs"
 	"github.com/jsightapi/jsight-schema-core/kit"
-	"github.com/jsightapi/jsight-schema-core/notations/regex"
 
-	"github.com/jsightapi/jsight-api-core/catalog"
 	"github.com/jsightapi/jsight-api-core/directive"
 	"github.com/jsightapi/jsight-api-core/jerr"
 )
@@ -44,11 +42,7 @@ func safeAddType(curr schema.Schema, n string, ut schema.Schema) error {
 }
 
 func (core *JApiCore) checkUserType(name string) *jerr.JApiError {
-	ut := core.userTypes.GetValue(name)
-	err := ut.Check()
-	if rs, ok := ut.(*regex.RSchema); ok && err == nil {
-		err = catalog.CheckRegexExample(rs)
-	}
+	err := core.userTypes.GetValue(name).Check()
 	if err == nil {
 		return nil
 	}
